@@ -11,7 +11,7 @@ pub static DEF: CheckDef = CheckDef {
     id: "C20",
     run,
     replay,
-    rule: "(a) all 65536 addresses, each written in decimal (plain and zero-padded) and in 0x-hexadecimal (lower, upper, mixed-case digits, zero-padded), passed bare (with ASCII and Unicode white space around) to parse_address and inside break / p / print lines with generated letter case and padding to parse_command: must give exactly that value / command. (b) an enumerated family of malformed and out-of-range numerals (65536.., 0x10000.., empty, 0x, 12a, -1, 1e3, 0x12g, embedded spaces, digits beyond 64 characters) and proptest numerals around the range limit: must be rejected. (c) proptest lines: arbitrary Unicode strings, printable strings, and structured lines (command words in random case, unknown words, arguments) - parse_command must return without panicking and agree with the reference grammar. (d) proptest byte sequences composed of complete instructions (all 256 first bytes incl. CB-prefixed and undefined ones, arbitrary operands, up to 64 instructions, any base address incl. wrap past 0xFFFF): disassemble() rendered through Display must tile the input exactly - addresses, lengths and bytes - and agree with decoder::decode and with the reference length table. Long listings: generated listings of 0xFFF0 to 0x30005 bytes (just under, exactly and well over 64 KiB) at three base addresses get the same tiling check. Non-trivial = line that parses to a command / sequence with at least one three-byte and one CB-prefixed instruction; distinct by hash of the input.",
+    rule: "(a) all 65536 addresses, each written in decimal (plain and zero-padded) and in 0x-hexadecimal (lower, upper, mixed-case digits, zero-padded), passed bare (with ASCII and Unicode white space around) to parse_address and inside break / p / print lines with generated letter case and padding to parse_command: must give exactly that value / command. (b) an enumerated family of malformed and out-of-range numerals (65536.., 0x10000.., empty, 0x, 12a, -1, 1e3, 0x12g, embedded spaces, digits beyond 64 characters; a two-, three- or four-byte character at every position next to a leading 0 / 0x / digit) and proptest numerals around the range limit: must be rejected. (c) proptest lines: arbitrary Unicode strings, printable strings, and structured lines (command words in random case, unknown words, arguments) - parse_command must return without panicking and agree with the reference grammar. (d) proptest byte sequences composed of complete instructions (all 256 first bytes incl. CB-prefixed and undefined ones, arbitrary operands, up to 64 instructions, any base address incl. wrap past 0xFFFF): disassemble() rendered through Display must tile the input exactly - addresses, lengths and bytes - and agree with decoder::decode and with the reference length table. Long listings: generated listings of 0xFFF0 to 0x30005 bytes (just under, exactly and well over 64 KiB) at three base addresses get the same tiling check. Non-trivial = line that parses to a command / sequence with at least one three-byte and one CB-prefixed instruction; distinct by hash of the input.",
     assumptions: &[
         "reference grammar: tokens are separated by Unicode white space; the first token lower-cased selects the command; decimal = [0-9]+, hexadecimal = 0x[0-9a-fA-F]+, value <= 65535",
         "gray zone, either outcome accepted but a returned value must equal the digits: a leading '+', an upper-case 0X prefix, non-ASCII digits; command words that only match after non-ASCII case folding; extra tokens after a complete command; lines whose first token is not a command word are only required not to panic",
@@ -400,6 +400,15 @@ fn run(rec: &mut Rec) {
             .into_iter()
             .map(|s| s.to_string())
             .collect();
+        // a multi-byte character at every position next to the characters the parser slices
+        // at ("0", "0x"): byte offsets that are not character boundaries
+        for pre in ["", "0", "0x", "0X", "00", "1", "x", "0x1", "10", "0xf"] {
+            for ch in ['\u{d7}', '\u{ff58}', '\u{1f600}', '\u{e9}', '\u{a0}', '\u{ff10}', '\u{301}', '\u{df}', '\u{7ff}', '\u{800}'] {
+                for suf in ["", "10", "ff0f", "x1"] {
+                    bad.push(format!("{}{}{}", pre, ch, suf));
+                }
+            }
+        }
         bad.push("1".repeat(80));
         bad.push(format!("0x{}", "f".repeat(70)));
         bad.push("0".repeat(100) + "65536");
